@@ -77,3 +77,12 @@ ENTRY = {
         "rejected as mismatch instead of ignored as duplicate - no state change either way; not generated",
     ],
 }
+
+# C01 is the composition of the component guarantees: its check also runs the aggregator (C09) and the
+# admission (C10) streams and reports their safety-relevant monitor signatures under C01.
+from vlib.props_C09 import ENTRY as _E09
+from vlib.props_C10 import ENTRY as _E10
+ENTRY["streams"] = ENTRY["streams"] + [dict(s, n_quick=max(1, s.get("n_quick", 1000) // 2)) for s in _E09["streams"] + _E10["streams"]]
+ENTRY["monitor_sigs"] = ["clustersim:", "sigagg:published_invalid_signature", "sigagg:partial_publish_on_error",
+                         "sigagg:published_other_content", "admit:invalid_partial_reached_subscriber",
+                         "admit:wrong_share_accepted", "admit:zero_sig_accepted", "admit:gated_duty_accepted"]
